@@ -98,8 +98,17 @@ Example C03_nonvacuous : forall t, - (1 / 10) <= t <= 1 / 10 ->
   exists i, optimum_idler index Type2_e_eo false (beam_new Ordinary 0 t 2 (1, 1)) (pump_new Ordinary 1 (1, 1)) PPOff = Some i.
 Proof. exact nonvacuous_at. Qed.
 
-Example C03_nonvacuous_poled : pp_defined (PPOn (1 / 100) false) /\ (1 : R) <> 0.
-Proof. split; [unfold pp_defined; Lra.lra | Lra.lra]. Qed.
+(* with poling: period 10 (+) keeps the closing vector forward — hypotheses of C03_parallel with PeriodicPoling::On;
+   period 1/2 (+), counter-propagating, turns it backward — hypotheses of C03_parallel_counter *)
+Example C03_nonvacuous_poled :
+  let index := fun (_ : R) (_ : vec) (_ : polarization) => 3 / 2 in
+  (pp_defined (PPOn 10 true) /\ - (PI / 2) < 1 / 10 < PI / 2) /\
+  0 < vz (closing_vector index (beam_new Ordinary 0 (1 / 10) 2 (1, 1)) (pump_new Ordinary 1 (1, 1)) (PPOn 10 true)) /\
+  (exists i, optimum_idler index Type2_e_eo false (beam_new Ordinary 0 (1 / 10) 2 (1, 1)) (pump_new Ordinary 1 (1, 1)) (PPOn 10 true) = Some i) /\
+  pp_defined (PPOn (1 / 2) true) /\
+  vz (closing_vector index (beam_new Ordinary 0 (1 / 10) 2 (1, 1)) (pump_new Ordinary 1 (1, 1)) (PPOn (1 / 2) true)) < 0 /\
+  (exists i, optimum_idler index Type2_e_eo true (beam_new Ordinary 0 (1 / 10) 2 (1, 1)) (pump_new Ordinary 1 (1, 1)) (PPOn (1 / 2) true) = Some i).
+Proof. exact nonvacuous_poled. Qed.
 
 Print Assumptions C03_delta_k_def.
 Print Assumptions C03_direction.
